@@ -1316,8 +1316,12 @@ def seven_objective_specs():
             for sd in SEEDS]
 
 
+def base_ib_specs():
+    return [s for s in base_specs() if s["instance"] == "ib"]
+
+
 ALPHABETS = {"base": base_specs, "mixed": mixed_specs,
-             "objectives": seven_objective_specs}
+             "objectives": seven_objective_specs, "base_ib": base_ib_specs}
 
 
 def comb(n, k):
@@ -1373,16 +1377,21 @@ def part_tables(ctx: Ctx, found):
                       "encoding": ENCS, "max_fes": MAX_FES,
                       "max_time_millis": MAX_MS, "goal_f": GOALS,
                       "seed": SEEDS, "instance": list(TABLE_INSTANCES)})
-    plan = [("base", 1), ("base", 2), ("mixed", 1), ("mixed", 2),
-            ("objectives", 1), ("objectives", 2)]
+    plan = [("base", 1, "both"), ("base", 2, "both"), ("mixed", 1, "both"),
+            ("mixed", 2, "both"), ("objectives", 1, "both"),
+            ("objectives", 2, "both")]
     if not ctx.quick:
-        plan += [("mixed", 3), ("base", 3)]
+        plan += [("mixed", 3, "both"), ("base", 3, "results"),
+                 ("base_ib", 3, "statistics")]
+        ctx.cap("statistics CSV of 3-record tables: only the tables over "
+                "the 128 records of instance ib (341376 of 2763520); the "
+                "results CSV is checked for all 2763520 tables")
     total = 0
     headers = 0
-    for (alpha, size) in plan:
-        tot, jobs = table_jobs(ctx, alpha, size)
+    for (alpha, size, what) in plan:
+        tot, jobs = table_jobs(ctx, alpha, size, what)
         cn = merge_counters(pmap(_table_job, jobs, ctx.jobs), found)
-        ctx.part(f"csv_tables_{alpha}_{size}_records", tables=tot,
+        ctx.part(f"csv_tables_{alpha}_{size}_records_{what}", tables=tot,
                  results_files=cn["results_tables"],
                  statistics_files=cn["statistics_tables"],
                  statistics_groups=cn["groups"],
